@@ -5,18 +5,19 @@
 (* behaviour, the controllable schedule with the observation predicted at each quiescent point *)
 (* (tokens = len(limiter), files open).                                                        *)
 EXTENDS Limiter, Json
-CONSTANT MaxCancel
+CONSTANTS MaxCancel, MaxRotate
 VARIABLES hist, wq    \* wq: Go parks blocked senders of a channel in FIFO order; the generator follows that order so
                       \* that the schedules it prints are the ones the real runtime produces (Limiter itself does not assume it)
 svars == <<vars, hist, wq>>
 
 Obs == [tokens |-> tokens, open |-> Cardinality(Reading),
-        waiting |-> Cardinality({r \in Reads : pc[r] = "waiting"})]
+        waiting |-> Cardinality({r \in Reads : pc[r] = "waiting"}), retrying |-> Cardinality({r \in Reads : pc[r] = "retrying"})]
+NRotated == Cardinality({i \in 1..Len(hist) : hist[i].a = "rotate"})
 NCancelled == Cardinality({s \in Sessions : cancelled[s]})
 
 SInit == Init /\ hist = <<>> /\ wq = <<>>
 Without(q, r) == SelectSeq(q, LAMBDA x : x # r)
-SInternal(r) == \/ (FastAcq(r) \/ CancelEnter(r) \/ Acquired(r) \/ AbortHolding(r) \/ FailFinish(r) \/ CancelledExit(r) \/ Release(r)) /\ UNCHANGED wq
+SInternal(r) == \/ (FastAcq(r) \/ CancelEnter(r) \/ Acquired(r) \/ AbortHolding(r) \/ AbortRetry(r) \/ FailFinish(r) \/ CancelledExit(r) \/ Release(r)) /\ UNCHANGED wq
                 \/ Wait(r) /\ wq' = Append(wq, r)
                 \/ SlowAcq(r) /\ wq # <<>> /\ Head(wq) = r /\ wq' = Tail(wq)
                 \/ CancelWait(r) /\ wq' = Without(wq, r)
@@ -24,6 +25,7 @@ Ctl(a, id) == hist' = Append(hist, [a |-> a, id |-> id, obs |-> Obs])
 SNext == \/ InternalEnabled /\ (\E r \in Reads : SInternal(r)) /\ UNCHANGED hist
          \/ ~InternalEnabled /\ UNCHANGED wq /\
                  \/ \E r \in Reads : (Enter(r) /\ Ctl("enter", r)) \/ (Finish(r) /\ Ctl("finish", r))
+                                     \/ (NRotated < MaxRotate /\ Rotate(r) /\ Ctl("rotate", r))
                  \/ \E s \in Sessions : NCancelled < MaxCancel /\ Cancel(s) /\ Ctl("cancel", s)
 SSpec == SInit /\ [][SNext]_svars
 
